@@ -66,6 +66,10 @@ pub struct Cfg {
     /// give every transaction on every replica the same timestamp (cid order decided by server uuid)
     pub same_time: bool,
     pub props: BTreeSet<&'static str>,
+    /// operations applied (unchecked) before the search starts, after the replicas were joined
+    pub pre_ops: Vec<Op>,
+    /// reduced alphabet: one rename target, one displayname value
+    pub small: bool,
 }
 
 #[derive(Clone, Copy, Debug, PartialEq, Eq)]
@@ -110,6 +114,11 @@ fn mk_entry(slot: usize, name: &str) -> Entry<EntryInit, EntryNew> {
         e.add_ava(Attribute::Class, EntryClass::Account.to_value());
         e.add_ava(Attribute::Class, EntryClass::Person.to_value());
         e.add_ava(Attribute::DisplayName, Value::new_utf8s("init"));
+        // an optional attribute that exists from the start, so that "set on one replica, purged on
+        // another" is a two-operation race
+        if let Some(m) = Value::new_email_address_primary_s("init@mail.example") {
+            e.add_ava(Attribute::Mail, m);
+        }
     } else {
         e.add_ava(Attribute::Class, EntryClass::Group.to_value());
     }
@@ -173,6 +182,14 @@ impl Repl {
                 let _ = w.repl(i, 0);
             }
         }
+        let pre_ops = w.cfg.pre_ops.clone();
+        for op in pre_ops {
+            let l = w.apply(&op);
+            if l.starts_with("err") {
+                kv_engine::ctx::machinery_exit(&format!("pre-op {op:?}: {l}"));
+            }
+        }
+        w.resurrections.clear();
         w.nrepl = 0;
         w
     }
@@ -193,6 +210,11 @@ impl Repl {
         let r: Result<(String, ConsumerState), OperationError> = b.rt.block_on(async {
             let mut w = b.qs.write(ct).await?;
             let state = w.consumer_get_state()?;
+            if std::env::var("KV_RUV").is_ok() {
+                eprintln!("RUV consumer {to}: {state:?}");
+                let mut sw = a.qs.write(ct).await?;
+                eprintln!("RUV supplier {from}: {:?}", sw.consumer_get_state()?);
+            }
             let changes = {
                 let mut r = a.qs.read().await?;
                 r.supplier_provide_changes(state)?
@@ -238,15 +260,13 @@ impl Repl {
 
     /// C09 monitor step: called after every operation and after every replication step.
     pub fn observe(&mut self, why: &str) {
-        if !self.cfg.props.contains("C09") {
-            return;
-        }
+        let report = self.cfg.props.contains("C09");
         for r in 0..self.cfg.replicas {
             for s in 0..NSLOTS {
                 match self.life(r, s) {
                     Life::Recycled | Life::Tombstone => self.dead_seen[r][s] = true,
                     Life::Live => {
-                        if self.dead_seen[r][s] {
+                        if self.dead_seen[r][s] && report {
                             self.resurrections.push(format!("replica {r} held slot {s} as deleted, and after {why} it is live again"));
                             self.dead_seen[r][s] = false;
                         }
@@ -307,7 +327,61 @@ impl Repl {
 
     /// Run replication to quiescence, first round in the given edge order; return Err(text) if it
     /// does not quiesce.
+    /// Every directed edge reads its supplier BEFORE any consumer applies anything (replication
+    /// runs that overlap in time): all supplier answers are computed from the pre-exchange states,
+    /// then all of them are applied.
+    fn exchange_all_at_once(&mut self) -> Result<(), String> {
+        let n = self.cfg.replicas;
+        let mut plans = Vec::new();
+        for to in 0..n {
+            for from in 0..n {
+                if from == to {
+                    continue;
+                }
+                let ct = self.time();
+                let (a, b) = (&self.srvs[from], &self.srvs[to]);
+                let r: Result<ReplIncrementalContext, OperationError> = b.rt.block_on(async {
+                    let state = {
+                        let mut w = b.qs.write(ct).await?;
+                        w.consumer_get_state()?
+                    };
+                    let mut r = a.qs.read().await?;
+                    r.supplier_provide_changes(state)
+                });
+                match r {
+                    Ok(c) => plans.push((from, to, c)),
+                    Err(e) => return Err(format!("overlapping exchange: supplier {from} for {to}: {e:?}")),
+                }
+            }
+        }
+        for (from, to, changes) in plans {
+            let ct = self.time();
+            let kind = answer_kind(&changes);
+            if kind != "V1" {
+                continue;
+            }
+            let b = &self.srvs[to];
+            let r: Result<(), OperationError> = b.rt.block_on(async {
+                let mut w = b.qs.write(ct).await?;
+                w.consumer_apply_changes(changes)?;
+                w.commit()
+            });
+            if let Err(e) = r {
+                return Err(format!("overlapping exchange: apply {from}->{to}: {e:?}"));
+            }
+            self.observe(&format!("overlapping replication {from}->{to}"));
+        }
+        Ok(())
+    }
+
     fn converge(&mut self, order: &[(usize, usize)]) -> Result<bool, String> {
+        // an order that starts with the marker edge begins with one overlapping exchange
+        let order: &[(usize, usize)] = if order.first() == Some(&(usize::MAX, usize::MAX)) {
+            self.exchange_all_at_once()?;
+            &order[1..]
+        } else {
+            order
+        };
         for round in 0..8 {
             let mut any = false;
             let mut refused = false;
@@ -349,8 +423,11 @@ impl Repl {
 
     fn edge_orders(&self) -> Vec<Vec<(usize, usize)>> {
         let n = self.cfg.replicas;
+        let m = (usize::MAX, usize::MAX);
         if n == 2 {
-            vec![vec![(0, 1), (1, 0)], vec![(1, 0), (0, 1)]]
+            vec![vec![(0, 1), (1, 0)], vec![(1, 0), (0, 1)], vec![m, (0, 1), (1, 0)]]
+        } else if self.cfg.same_time {
+            vec![vec![(0, 1), (1, 2), (2, 1), (1, 0), (0, 2), (2, 0)], vec![m, (0, 1), (1, 2), (2, 0), (1, 0), (2, 1), (0, 2)]]
         } else {
             // chain both ways, star in/out of each hub, ring both ways
             vec![
@@ -360,6 +437,7 @@ impl Repl {
                 vec![(0, 1), (0, 2), (1, 0), (2, 0), (2, 1), (1, 2)],
                 vec![(0, 1), (1, 2), (2, 0), (1, 0), (2, 1), (0, 2)],
                 vec![(0, 2), (2, 1), (1, 0), (2, 0), (1, 2), (0, 1)],
+                vec![m, (0, 1), (1, 2), (2, 0), (1, 0), (2, 1), (0, 2)],
             ]
         }
     }
@@ -671,8 +749,13 @@ impl World for Repl {
                 let life = self.life(r, s);
                 match life {
                     Life::Absent => {
-                        if !self.deleted[s] {
+                        // a replica that has never held the entry as deleted may create it (again):
+                        // the same uuid created after a deletion elsewhere is a legal history
+                        if !self.dead_seen[r][s] {
                             for nm in 0..self.cfg.names {
+                                if self.cfg.small && nm > 0 {
+                                    continue;
+                                }
                                 v.push(Op::Create(r, s, nm));
                             }
                         }
@@ -680,12 +763,17 @@ impl World for Repl {
                     Life::Live => {
                         if self.cfg.rename {
                             for nm in 0..self.cfg.names {
+                                if self.cfg.small && nm != 1 {
+                                    continue;
+                                }
                                 v.push(Op::Rename(r, s, nm));
                             }
                         }
                         if self.cfg.disp && s < 2 {
                             v.push(Op::SetDisp(r, s, 0));
-                            v.push(Op::SetDisp(r, s, 1));
+                            if !self.cfg.small {
+                                v.push(Op::SetDisp(r, s, 1));
+                            }
                             v.push(Op::SetMail(r, s));
                             v.push(Op::PurgeMail(r, s));
                         }
